@@ -15,6 +15,7 @@ ev == TraceLog[l]
 IsEv(e) == l <= Len(TraceLog) /\ ev.e = e /\ l' = l + 1
 
 ToSet(s) == { s[i] : i \in 1..Len(s) }
+StampPrecision == 86400  \* seconds; key rows are stamped with the creation second cut to the policy precision (default one minute): a day of slack keeps this about the UNIT
 Rule(name, holds) == IF holds THEN {} ELSE {name}
 
 Shape(e) == [ ch |-> e.ch, dir |-> e.dir, len |-> e.len, part |-> e.part, svc |-> e.svc, prod |-> e.prod, region |-> e.region,
@@ -88,6 +89,13 @@ Violated(e) ==
         \cup Rule("keys-are-32-bytes", e.open_drk => (e.sk_len = KeyLen /\ e.ik_len = KeyLen /\ e.drk_len = KeyLen))
         \cup Rule("payload-recovered", e.open_data => e.payload_match)
         \cup Rule("reader-recovers-payload", ReadResult(ObsStore(e), ObsDRR(e)) = "payload")
+        \* Created is the epoch SECOND of creation: the data row key carries the second of the encrypt call, key rows that
+        \* second cut to the creation-date precision of the policy (within StampPrecision).  Only when the SDK's clock was driven.
+        \cup Rule("created-is-epoch-seconds-of-creation",
+                  (e.dir = "sdk-to-ref" /\ e.clock # "") =>
+                     /\ e.drk_created_delta = 0
+                     /\ e.ik_created_delta <= 0 /\ e.ik_created_delta > 0 - StampPrecision
+                     /\ e.sk_created_delta <= 0 /\ e.sk_created_delta > 0 - StampPrecision)
         \* the SDK reading the same rows sees the same revoked flags
         \cup Rule("sdk-reads-revoked-flag", e.sdk_read /\ e.sdk_sk_revoked = c.skrev /\ e.sdk_ik_revoked = c.ikrev)
         ELSE {})
